@@ -23,7 +23,7 @@ package utils
 
 //@ func (*LocalLock).Unlock
 //@   mode math
-//@   props C12
+//@   props C12 C11
 //@   requires its.mutex != nil && its.ctx != nil
 //@   ensures[stays-registered] G.registry == old(G.registry)
 //@   modifies nothing
